@@ -63,53 +63,46 @@ SameRes(a, b) ==        \* two observed results agree (decode vs. process)
 Eids(m) == [eid_req |-> m.eidReq, eid_resp |-> m.eidResp]
 
 (* ------------------------------------------------------------------ *)
+(* NOTE on evaluation: TLC re-evaluates a LET-bound name at every use but    *)
+(* evaluates an operator argument once.  Every shared sub-result below is    *)
+(* therefore passed down as an argument (the "...2" / "...3" operators).     *)
+(* ------------------------------------------------------------------ *)
 (* encoder events                                                      *)
 EncSpec(e, m) ==
-    LET a == e.args IN
-    CASE e.op = "enc_req"    -> [refused |-> ReqRefused(e.name, a), type |-> MT_CONTROL,
-                                 rest |-> ReqRest(e.name, a), lo |-> 11, payload |-> ReqData(e.name, a), cc |-> 0]
-      [] e.op = "enc_resp"   -> [refused |-> RespRefused(e.name, a), type |-> MT_CONTROL,
-                                 rest |-> RespRest(e.name, a, e.pre.eid_resp), lo |-> 12,
-                                 payload |-> RespFields(e.name, a, e.pre.eid_resp), cc |-> a.cc]
-      [] e.op = "enc_vendor" -> IF VendorRefused(a)
+    CASE e.op = "enc_req"    -> [refused |-> ReqRefused(e.name, e.args), type |-> MT_CONTROL,
+                                 rest |-> ReqRest(e.name, e.args), lo |-> 11,
+                                 payload |-> ReqData(e.name, e.args), cc |-> 0]
+      [] e.op = "enc_resp"   -> [refused |-> RespRefused(e.name, e.args), type |-> MT_CONTROL,
+                                 rest |-> RespRest(e.name, e.args, e.pre.eid_resp), lo |-> 12,
+                                 payload |-> RespFields(e.name, e.args, e.pre.eid_resp), cc |-> e.args.cc]
+      [] e.op = "enc_vendor" -> IF VendorRefused(e.args)
                                 THEN [refused |-> TRUE, type |-> 0, rest |-> << >>, lo |-> 9, payload |-> << >>, cc |-> 0]
-                                ELSE [refused |-> FALSE, type |-> VendorType(a), rest |-> VendorRest(a),
-                                      lo |-> 9, payload |-> VendorRest(a), cc |-> 0]
-      [] e.op = "enc_gen"    -> [refused |-> FALSE, type |-> GenType[e.kind], rest |-> GenRest(a),
-                                 lo |-> 9, payload |-> GenRest(a), cc |-> 0]
+                                ELSE [refused |-> FALSE, type |-> VendorType(e.args), rest |-> VendorRest(e.args),
+                                      lo |-> 9, payload |-> VendorRest(e.args), cc |-> 0]
+      [] e.op = "enc_gen"    -> [refused |-> FALSE, type |-> GenType[e.kind], rest |-> GenRest(e.args),
+                                 lo |-> 9, payload |-> GenRest(e.args), cc |-> 0]
 
 EncKey(e) == << e.op, e.ctx, IF e.op \in {"enc_req", "enc_resp"} THEN e.name ELSE "",
                 IF e.op = "enc_gen" THEN << e.half, e.kind >> ELSE << >>, e.args, e.pre.eid_resp >>
 
-EncChecks(e, m) ==
-    LET a     == e.args
-        dst   == a.dst
-        src   == m.addr
-        sp    == EncSpec(e, m)
-        total == TotalLen(sp.rest)
-        fits  == total <= MaxTotal
-        okk   == e.res.kind = "ok"
-        n     == e.res.len
-        buf   == e.buf
-        isResp == e.op = "enc_resp" \/ (e.op = "enc_gen" /\ e.half = "resp" /\ e.kind = "control")
-        wr    == WriterAsIs(total, Open)
-        wrapExplains == /\ ~sp.refused /\ total >= 256
-                        /\ e.res.kind = wr.kind
-                        /\ (okk => n = total /\ Len(buf) = n /\ buf[3] = wr.count)
-        body  == SubSeq(buf, 10, n - 1)
-    IN
+IsRespEnc(e) == e.op = "enc_resp" \/ (e.op = "enc_gen" /\ e.half = "resp" /\ e.kind = "control")
+
+(* sp = EncSpec, total = packet length the spec expects, wr = the writer's   *)
+(* as-is outcome, body = observed bytes between the type byte and the PEC    *)
+EncChecks3(e, m, sp, total, wr, okk, n, buf, body, wrapExplains) ==
     { Chk("C03", okk => (n >= 1 /\ Len(buf) = n /\ PecGood(buf)), okk, {}),
-      IF dst < 128 /\ src < 128
+      IF e.args.dst < 128 /\ m.addr < 128
       THEN Chk("C04",
-               /\ (~sp.refused /\ ~fits) => e.res.kind = "err"
+               /\ (~sp.refused /\ total > MaxTotal) => e.res.kind = "err"
                /\ okk => /\ n >= 4 /\ Len(buf) = n
-                         /\ buf[1] = dst * 2 /\ buf[2] = 15 /\ buf[3] = n - 4 /\ buf[4] = src * 2 + 1
+                         /\ buf[1] = e.args.dst * 2 /\ buf[2] = 15 /\ buf[3] = n - 4
+                         /\ buf[4] = m.addr * 2 + 1
                          /\ e.probe = << OkLen(n) >>,
-               okk \/ ~fits, IF wrapExplains THEN {"BYTECOUNT_WRAP"} ELSE {})
+               okk \/ total > MaxTotal, IF wrapExplains THEN {"BYTECOUNT_WRAP"} ELSE {})
       ELSE Skip("C04"),
       Chk("C05", okk => /\ n >= 10 /\ Len(buf) = n
-                        /\ buf[5] = 1 /\ buf[6] = dst /\ buf[7] = src
-                        /\ (IF isResp THEN buf[8] \div 16 = 12 ELSE buf[8] = 200)
+                        /\ buf[5] = 1 /\ buf[6] = e.args.dst /\ buf[7] = m.addr
+                        /\ (IF IsRespEnc(e) THEN buf[8] \div 16 = 12 ELSE buf[8] = 200)
                         /\ buf[9] = sp.type,
           okk, {}),
       IF e.op = "enc_req"
@@ -120,8 +113,8 @@ EncChecks(e, m) ==
       ELSE Skip("C06"),
       IF e.op = "enc_resp"
       THEN Chk("C07", okk => /\ n >= 13 /\ Len(buf) = n
-                             /\ buf[10] \div 32 = 0 /\ buf[11] = RespCmd[e.name] /\ buf[12] = a.cc
-                             /\ (a.cc = 0 => Tail(body) = Tail(sp.rest)),
+                             /\ buf[10] \div 32 = 0 /\ buf[11] = RespCmd[e.name] /\ buf[12] = e.args.cc
+                             /\ (e.args.cc = 0 => Tail(body) = Tail(sp.rest)),
                okk, {})
       ELSE Skip("C07"),
       IF e.op = "enc_vendor" \/ (e.op = "enc_gen" /\ e.kind # "control")
@@ -131,17 +124,29 @@ EncChecks(e, m) ==
       ELSE Skip("C08"),
       Chk("C16",
           /\ sp.refused => (e.res.kind = "err" /\ e.tail_diff = << >>)
-          /\ (~sp.refused /\ fits /\ e.buf_len >= total) => okk
+          /\ (~sp.refused /\ total <= MaxTotal /\ e.buf_len >= total) => okk
           /\ okk => (n <= e.buf_len /\ Len(buf) = n /\ e.tail_diff = << >>)
           /\ (lastEnc.key = EncKey(e)) => (lastEnc.kind = e.res.kind /\ lastEnc.buf = buf),
-          TRUE, IF wrapExplains /\ fits THEN {"BYTECOUNT_WRAP"} ELSE {}),
+          TRUE, IF wrapExplains /\ total <= MaxTotal THEN {"BYTECOUNT_WRAP"} ELSE {}),
       Chk("C13", e.pre = Eids(m) /\ e.post = e.pre, FALSE, {}) }
 
-EncRemember(e, m) ==
-    LET sp == EncSpec(e, m) IN
+WrapExplains(e, sp, total, wr) ==
+    /\ ~sp.refused /\ total >= 256
+    /\ e.res.kind = wr.kind
+    /\ (e.res.kind = "ok" => e.res.len = total /\ Len(e.buf) = total /\ e.buf[3] = wr.count)
+
+EncChecks2b(e, m, sp, total, wr) ==
+    EncChecks3(e, m, sp, total, wr, e.res.kind = "ok", e.res.len, e.buf,
+               SubSeq(e.buf, 10, e.res.len - 1), WrapExplains(e, sp, total, wr))
+EncChecks2(e, m, sp, total) == EncChecks2b(e, m, sp, total, WriterAsIs(total, Open))
+EncChecks1(e, m, sp) == EncChecks2(e, m, sp, TotalLen(sp.rest))
+EncChecks(e, m) == EncChecks1(e, m, EncSpec(e, m))
+
+EncRemember1(e, sp) ==
     [ok |-> e.res.kind = "ok", key |-> EncKey(e), kind |-> e.res.kind, buf |-> e.buf,
      type |-> sp.type, lo |-> sp.lo, payload |-> sp.payload, cc |-> sp.cc,
      fits |-> ~sp.refused /\ TotalLen(sp.rest) <= MaxTotal]
+EncRemember(e, m) == EncRemember1(e, EncSpec(e, m))
 
 (* ------------------------------------------------------------------ *)
 (* C01 on a decode (or process) of exactly the bytes the previous encoder produced *)
@@ -154,27 +159,26 @@ PairHolds(p, r) ==
 
 IsPair(p) == lastEnc.ok /\ lastEnc.fits /\ lastEnc.buf = p
 
-DecDevs(p, r) == LET x == Dec(p, Open) IN IF SameDec(r, x) THEN x.dev ELSE {}
+DevsIfSame(r, x) == IF SameDec(r, x) THEN x.dev ELSE {}
+DecDevs(p, r, k) == DevsIfSame(r, DecK(p, Open, k))
 
 (* ------------------------------------------------------------------ *)
 (* decode events                                                       *)
-DecodeChecks(e, m) ==
-    LET p == e.p
-        r == e.res
-        panicked == r.kind = "panic"
-    IN
-    { Chk("C10", ~panicked, TRUE, DecDevs(p, r)),
-      Chk("C02", r.kind = "ok" => PecGood(p), Len(p) >= 1 /\ ~PecGood(p), {}),
-      IF panicked THEN Skip("C09")
-      ELSE Chk("C09", /\ DecodeAllowed(p, r)
+DecodeChecks2(e, m, p, r, k, ddevs) ==
+    { Chk("C10", r.kind # "panic", TRUE, ddevs),
+      Chk("C02", r.kind = "ok" => k, Len(p) >= 1 /\ ~k, {}),
+      IF r.kind = "panic" THEN Skip("C09")
+      ELSE Chk("C09", /\ DecodeAllowedK(p, r, k)
                       /\ (lastDec.p = p /\ lastDec.res.kind # "panic") => SameRes(lastDec.res, r),
-               Claimed(p), DecDevs(p, r)),
-      IF IsPair(p) THEN Chk("C01", PairHolds(p, r), TRUE, DecDevs(p, r)) ELSE Skip("C01"),
+               Claimed(p), ddevs),
+      IF IsPair(p) THEN Chk("C01", PairHolds(p, r), TRUE, ddevs) ELSE Skip("C01"),
       Chk("C13", e.pre = Eids(m) /\ e.post = e.pre, FALSE, {}) }
+DecodeChecks1(e, m, k) == DecodeChecks2(e, m, e.p, e.res, k, DecDevs(e.p, e.res, k))
+DecodeChecks(e, m) == DecodeChecks1(e, m, PecGood(e.p))
 
 (* ------------------------------------------------------------------ *)
 (* process events                                                      *)
-IsAcceptedReq(p) == WellFormed(p) /\ IsCtl(p) /\ Rq(p) = 1
+IsAcceptedReq(p, k) == WellFormedK(p, k) /\ IsCtl(p) /\ Rq(p) = 1
 
 Untouched(e) == e.res.resp_len = -1 /\ e.rbuf = << >> /\ e.rtail_diff = << >>
 
@@ -185,32 +189,24 @@ C12Frame(p, m, R, n, iid) ==
     /\ R[9] = 0 /\ R[10] = iid /\ R[11] = Cmd(p)
     /\ PecGood(R)
 
-C12Domain(p, m, e) ==
-    /\ IsAcceptedReq(p) /\ Bits(p[10], 6, 5) = 0 /\ Len(p) <= 255
+C12Domain(p, m, e, acc) ==
+    /\ acc /\ Bits(p[10], 6, 5) = 0 /\ Len(p) <= 255
     /\ Answered(p, m)
     /\ (Cmd(p) = 1 /\ p[12] \in {0, 1}) => p[13] \in 1..254
     /\ p[4] \div 2 = p[7] /\ p[7] < 128 /\ m.addr < 128
     /\ e.rbuf_len >= 64
 
-ProcessChecks(e, m) ==
-    LET p  == e.p
-        r  == e.res
-        dc == e.dec
-        R  == e.rbuf
-        n  == r.resp_len
-        x  == Proc(p, m, Open)
-        panicked == r.kind = "panic"
-        acc  == IsAcceptedReq(p)
-        pecok == PecGood(p)
-        asIsSame == /\ SameDec(r, x)
-                    /\ (x.has => n = Len(x.resp) /\ R = x.resp /\ e.rtail_diff = << >>)
-                    /\ (~x.has => Untouched(e))
-                    /\ e.post = (IF x.neweid = -1 THEN e.pre ELSE [eid_req |-> x.neweid, eid_resp |-> x.neweid])
-        xdevs == IF asIsSame THEN x.dev ELSE {}
-        assign == acc /\ Cmd(p) = 1 /\ p[12] \in {0, 1}
-    IN
+AsIsSame(e, r, R, n, x) ==
+    /\ SameDec(r, x)
+    /\ (x.has => n = Len(x.resp) /\ R = x.resp /\ e.rtail_diff = << >>)
+    /\ (~x.has => Untouched(e))
+    /\ e.post = (IF x.neweid = -1 THEN e.pre ELSE [eid_req |-> x.neweid, eid_resp |-> x.neweid])
+
+(* pecok = PEC of the input is right, acc = accepted control request,        *)
+(* xdevs = open deviations that explain the whole observed outcome           *)
+ProcessChecks3(e, m, p, r, dc, R, n, pecok, acc, xdevs, panicked) ==
     { Chk("C10", dc.kind # "panic" /\ ~panicked, TRUE,
-          IF panicked THEN xdevs ELSE DecDevs(p, dc)),
+          IF panicked THEN xdevs ELSE DecDevs(p, dc, pecok)),
       Chk("C02", /\ r.kind = "ok" => pecok
                  /\ ~pecok => (Untouched(e) /\ e.post = e.pre),
           Len(p) >= 1 /\ ~pecok, {}),
@@ -220,13 +216,13 @@ ProcessChecks(e, m) ==
                                    /\ n <= e.rbuf_len /\ Len(R) = n /\ e.rtail_diff = << >>
                       /\ n < 0 => Untouched(e),
                TRUE, xdevs),
-      IF ~panicked /\ C12Domain(p, m, e)
+      IF ~panicked /\ C12Domain(p, m, e, acc)
       THEN Chk("C12", r.kind = "ok" /\ C12Frame(p, m, R, n, Iid(p)), TRUE,
                IF Iid(p) # 0 /\ r.kind = "ok" /\ C12Frame(p, m, R, n, 0) THEN {"IID_ZERO"} ELSE {})
       ELSE Skip("C12"),
       Chk("C13",
           /\ e.pre = Eids(m)
-          /\ IF assign /\ ~panicked
+          /\ IF acc /\ Cmd(p) = 1 /\ p[12] \in {0, 1} /\ ~panicked
              THEN IF p[13] \in 1..254
                   THEN /\ e.post = [eid_req |-> p[13], eid_resp |-> p[13]]
                        /\ r.kind = "ok" /\ n >= 16 /\ Len(R) = n
@@ -242,7 +238,14 @@ ProcessChecks(e, m) ==
       IF ~panicked /\ acc /\ Cmd(p) \in 3..5 /\ Len(p) <= 255
       THEN Chk("C15", r.kind = "ok" /\ n >= 13 /\ Len(R) = n /\ SubSeq(R, 12, n - 1) = AnswerBody(p, m, 0), TRUE, {})
       ELSE Skip("C15"),
-      IF IsPair(p) /\ ~panicked THEN Chk("C01", PairHolds(p, r), TRUE, xdevs \cup DecDevs(p, r)) ELSE Skip("C01") }
+      IF IsPair(p) /\ ~panicked THEN Chk("C01", PairHolds(p, r), TRUE, xdevs \cup DecDevs(p, r, pecok)) ELSE Skip("C01") }
+
+XDevs(e, x) == IF AsIsSame(e, e.res, e.rbuf, e.res.resp_len, x) THEN x.dev ELSE {}
+ProcessChecks2(e, m, pecok, x) ==
+    ProcessChecks3(e, m, e.p, e.res, e.dec, e.rbuf, e.res.resp_len, pecok,
+                   IsAcceptedReq(e.p, pecok), XDevs(e, x), e.res.kind = "panic")
+ProcessChecks1(e, m, pecok) == ProcessChecks2(e, m, pecok, ProcK(e.p, m, Open, pecok))
+ProcessChecks(e, m) == ProcessChecks1(e, m, PecGood(e.p))
 
 (* ------------------------------------------------------------------ *)
 (* length probe                                                        *)
@@ -319,8 +322,7 @@ SetUuidChecks(e, m) == { Chk("C13", e.pre = Eids(m) /\ e.post = e.pre, FALSE, {}
 HasCtx(e) == e.op \in {"set_uuid", "set_eid", "enc_req", "enc_resp", "enc_vendor", "enc_gen",
                        "decode", "get_length", "process"}
 
-Checks(e) ==
-    LET m == IF HasCtx(e) THEN ctxs[e.ctx] ELSE << >> IN
+ChecksM(e, m) ==
     CASE e.op = "new"        -> {}
       [] e.op = "set_uuid"   -> SetUuidChecks(e, m)
       [] e.op = "set_eid"    -> SetEidChecks(e, m)
@@ -331,6 +333,7 @@ Checks(e) ==
       [] e.op = "batch_get_length" -> BatchChecks(e)
       [] e.op \in {"hdr_get", "hdr_set", "hdr_from_buf", "hdr_new"} -> HeaderChecks(e)
       [] e.op = "conv"       -> ConvChecks(e)
+Checks(e) == ChecksM(e, IF HasCtx(e) THEN ctxs[e.ctx] ELSE << >>)
 
 VidOf(v) == [format |-> v.format, data |-> v.data, num |-> v.num]
 
@@ -352,26 +355,21 @@ InitStats == [ first |-> [x \in Props |-> 0],      \* first unexplained failing 
                evals |-> [x \in Props |-> 0],
                known |-> [pr \in PairSet |-> [n |-> 0, first |-> 0]] ]
 
-Mask(S) == LET RECURSIVE Sum(_)
-               Sum(T) == IF T = {} THEN 0 ELSE LET x == CHOOSE y \in T : TRUE IN 2^(PropIdx(x) - 1) + Sum(T \ {x})
-           IN Sum(S)
+RECURSIVE MaskFrom(_, _)
+MaskFrom(S, i) == IF i > 19 THEN 0 ELSE (IF PropSeq[i] \in S THEN 2^(i - 1) ELSE 0) + MaskFrom(S, i + 1)
+Mask(S) == MaskFrom(S, 1)
 
 FlushEvery == 500
 
 Init == /\ l = 1 /\ ctxs = << >> /\ lastEnc = NoEnc /\ lastDec = NoDec
         /\ st = InitStats /\ ntbuf = << >>
 
-Step ==
-    /\ l <= Len(Rec)
-    /\ LET e  == Rec[l]
-           cs == Checks(e)
-           failing == {c.p : c \in {d \in cs : ~d.ok /\ d.devs = {}}}
-           knowns  == UNION {{<< c.p, d >> : d \in c.devs} : c \in {d \in cs : ~d.ok}}
-           nts     == {c.p : c \in {d \in cs : d.nt}}
-           evs     == {c.p : c \in cs}
-           nb      == Append(ntbuf, Mask(nts))
-           last    == l = Len(Rec)
-       IN
+Failing(cs) == {c.p : c \in {d \in cs : ~d.ok /\ d.devs = {}}}
+Knowns(cs)  == UNION {{<< c.p, d >> : d \in c.devs} : c \in {d \in cs : ~d.ok}}
+NTs(cs)     == {c.p : c \in {d \in cs : d.nt}}
+Evs(cs)     == {c.p : c \in cs}
+
+Apply(e, failing, knowns, nts, evs, nb) ==
        /\ st' = [ first |-> [x \in Props |-> IF st.first[x] = 0 /\ x \in failing THEN l ELSE st.first[x]],
                   nfail |-> [x \in Props |-> st.nfail[x] + (IF x \in failing THEN 1 ELSE 0)],
                   nt    |-> [x \in Props |-> st.nt[x] + (IF x \in nts THEN 1 ELSE 0)],
@@ -381,7 +379,7 @@ Step ==
                                THEN [n |-> st.known[pr].n + 1,
                                      first |-> IF st.known[pr].first = 0 THEN l ELSE st.known[pr].first]
                                ELSE st.known[pr]] ]
-       /\ IF Len(nb) >= FlushEvery \/ last
+       /\ IF Len(nb) >= FlushEvery \/ l = Len(Rec)
           THEN /\ PrintT("NT " \o ToJson([from |-> l + 1 - Len(nb), masks |-> nb]))
                /\ ntbuf' = << >>
           ELSE ntbuf' = nb
@@ -391,6 +389,12 @@ Step ==
                      ELSE IF e.op \in {"decode", "process", "get_length"} THEN lastEnc ELSE NoEnc
        /\ lastDec' = IF e.op = "decode" THEN [p |-> e.p, res |-> e.res] ELSE NoDec
        /\ l' = l + 1
+
+Apply2(e, cs, nts) == Apply(e, Failing(cs), Knowns(cs), nts, Evs(cs), Append(ntbuf, Mask(nts)))
+Apply1(e, cs) == Apply2(e, cs, NTs(cs))
+StepOn(e) == Apply1(e, Checks(e))
+
+Step == l <= Len(Rec) /\ StepOn(Rec[l])
 
 Spec == Init /\ [][Step]_vars
 
